@@ -324,11 +324,11 @@ class Property(css_parser.util.Base):
               priority
         """
         if self._mediaQuery:
-            self._priority = ''
-            self._literalpriority = ''
             if priority:
                 self._log.error('Property: No priority in a MediaQuery - '
                                 'ignored.')
+            self._priority = ''
+            self._literalpriority = ''
             return
 
         if isinstance(priority, string_type) and 'important' == self._normalize(priority):
@@ -376,14 +376,14 @@ class Property(css_parser.util.Base):
                            self._valuestr(priority))
 
         if wellformed:
+            # validate priority, may raise: before anything is set
+            if self._normalize(new['literalpriority']) not in ('', 'important'):
+                self._log.error('Property: No CSS priority value: %s' %
+                                self._normalize(new['literalpriority']))
             self.wellformed = self.wellformed and wellformed
             self._literalpriority = new['literalpriority']
             self._priority = self._normalize(self.literalpriority)
             self.seqs[2] = newseq
-            # validate priority
-            if self._priority not in ('', 'important'):
-                self._log.error('Property: No CSS priority value: %s' %
-                                self._priority)
 
     priority = property(lambda self: self._priority, _setPriority,
                         doc="Priority of this property.")
